@@ -83,9 +83,10 @@ Run(st, ws) ==
 
 Parse(s) == Run([fg |-> None, bg |-> None, n |-> 0, eff |-> {}], Words(s, <<>>, <<>>))
 
-\* inputs the statement is silent about: a non-ASCII character whose Unicode lower-casing is ASCII
-\* (U+212A KELVIN SIGN -> k, U+0130 -> i + combining dot)
-InDomain(s) == \A i \in 1..Len(s) : s[i] \notin {8490, 304}
+\* inputs the statement is silent about: a non-ASCII character whose Unicode lower-casing IS an ASCII letter
+\* (U+212A KELVIN SIGN -> k).  U+0130 (capital I with dot) is inside the domain: its lower-casing is i + U+0307, which is not
+\* a keyword letter under any reading, so a word containing it is unknown.
+InDomain(s) == \A i \in 1..Len(s) : s[i] \notin {8490}
 
 (***************************************************************************)
 (* Printing an expressible style in this syntax (round trip).               *)
